@@ -732,6 +732,33 @@ func (env *Env) call(x *SExpr) Value {
 			return intVal(v.S[0])
 		}
 		specFail("ref() of %s", v.T)
+	case "mapdom", "mapval", "mapvalk":
+		v := env.eval(args[0])
+		mt, ok := v.T.Underlying().(*types.Map)
+		if !ok {
+			specFail("%s needs a map", name)
+		}
+		parts := e.mapParts(v.T)
+		switch name {
+		case "mapdom":
+			return Value{T: &GhostMap{K: mt.Key(), V: tBool}, S: []string{"(select " + e.compTerm(env.st, parts[0].name, parts[0].sort) + " " + v.S[0] + ")"}}
+		case "mapval":
+			// the value slot (for floats: the real value slot .v)
+			idx := 2
+			if isFloat(mt.Elem()) {
+				idx = 3
+			}
+			vt := mt.Elem()
+			if isFloat(vt) {
+				vt = realType
+			}
+			return Value{T: &GhostMap{K: mt.Key(), V: vt}, S: []string{"(select " + e.compTerm(env.st, parts[idx].name, parts[idx].sort) + " " + v.S[0] + ")"}}
+		default:
+			if !isFloat(mt.Elem()) {
+				specFail("mapvalk needs a float-valued map")
+			}
+			return Value{T: &GhostMap{K: mt.Key(), V: tInt}, S: []string{"(select " + e.compTerm(env.st, parts[2].name, parts[2].sort) + " " + v.S[0] + ")"}}
+		}
 	case "seqof":
 		v := env.eval(args[0])
 		sl, ok := v.T.Underlying().(*types.Slice)
@@ -965,6 +992,18 @@ func (env *Env) modEntries(x *SExpr, text string) []modEntry {
 			}
 			return out
 		}
+	}
+	if x.Op == "index" && x.Args[1].Op == "ident" && x.Args[1].Name == "_" && x.Args[0].Op == "call" && x.Args[0].Args[0].Op == "ident" && x.Args[0].Args[0].Name == "each" {
+		// each(map[K]V)[_] : the entries of every map of that type (whole components)
+		tt := env.resolveType(x.Args[0].Args[1].String())
+		if _, ok := tt.Underlying().(*types.Map); !ok {
+			specFail("modifies %s: each(...)[_] needs a map type", text)
+		}
+		for _, part := range e.mapParts(tt) {
+			e.compSort[part.name] = part.sort
+			out = append(out, modEntry{comp: part.name, text: text})
+		}
+		return out
 	}
 	if x.Op == "index" && x.Args[1].Op == "ident" && x.Args[1].Name == "_" {
 		base := env.eval(x.Args[0])
